@@ -1086,14 +1086,20 @@ impl Formatter {
     }
 
     fn format_match_arm(&mut self, arm: &MatchArm) {
-        self.format_pattern(&arm.pattern.node);
+        // guards exist only in the `case P if g:` spelling
         if let Some(guard) = &arm.guard {
+            self.writer.write("case ");
+            self.format_pattern(&arm.pattern.node);
             self.writer.write(" if ");
             self.format_expr(&guard.node);
+            self.writer.write(":");
+        } else {
+            self.format_pattern(&arm.pattern.node);
+            self.writer.write(" =>");
         }
-        self.writer.write(" => ");
         match &arm.body {
             MatchBody::Expr(expr) => {
+                self.writer.write(" ");
                 self.format_expr(&expr.node);
                 self.writer.newline();
             }
